@@ -314,6 +314,8 @@ HINT_TEXTS = [
     "{key} 'einfach' \"doppelt\" \\ back",
     "{key} zwei\nZeilen\tTab",
     "{key} äöüß € ∧∨⊻ [1] U [2]",
+    "{key}  zwei  Leerzeichen   drei (wie aus einem PDF kopiert) ",
+    "{key} " + "sehr langer Hinweistext, " * 120,  # about 3000 characters
     "",  # a hint that exists but has no text (Dict[str, Optional[str]]: only None means "no such hint")
 ]
 
